@@ -424,6 +424,170 @@ pub fn svob_case(rng: &mut Rng, out: &mut Out) {
     out.case(tagged("svob", ops), tagged("svob", results), nontrivial);
 }
 
+
+/// the rest of the TokTrie lookup / decoding interface against naive definitions over the word list
+/// (canonical id of a byte string = the lowest id with these bytes)
+pub fn api_case(rng: &mut Rng, out: &mut Out) {
+    let kind = if rng.chance(1, 4) { VocabKind::ByteComplete } else { VocabKind::Wild };
+    let target = rng.range(4, 50);
+    let mut ws = gen_vocab(rng, kind, target);
+    // make sure there is a special token or two (the 0xFF subtree must exist for get_special_tokens)
+    ws.push(b"\xFF<|eos|>".to_vec());
+    if rng.chance(1, 2) {
+        ws.push(b"\xFF<|e".to_vec());
+    }
+    let n = ws.len();
+    let eos = (n - 1) as u32;
+    let canon = |bytes: &[u8]| -> Option<u32> { ws.iter().position(|w| w.as_slice() == bytes).map(|i| i as u32) };
+    let mut viol: Vec<String> = vec![];
+    let res = catch_unwind(AssertUnwindSafe(|| {
+        let trie = TokTrie::from(&TokRxInfo::new(n as u32, eos), &ws);
+        // all_tokens / sorted_tokens
+        if trie.all_tokens() != ws {
+            viol.push("all_tokens() differs from the word list".into());
+        }
+        let mut want_sorted: Vec<(u32, Vec<u8>)> = ws.iter().enumerate().filter(|(_, w)| !w.is_empty()).map(|(i, w)| (i as u32, w.clone())).collect();
+        want_sorted.sort_by(|a, b| a.1.cmp(&b.1).then(a.0.cmp(&b.0)));
+        let mut got_sorted = trie.sorted_tokens();
+        // duplicates are extra leaves: every id is listed; the order must be by bytes
+        // (a duplicate byte string sits behind the extensions of its first copy, so the order is only
+        // judged on vocabularies without duplicates)
+        let has_dups = { let mut x: Vec<&Vec<u8>> = ws.iter().collect(); x.sort(); x.windows(2).any(|w| w[0] == w[1]) };
+        if !has_dups && trie.sorted_tokens().windows(2).any(|w| w[0].1 > w[1].1) {
+            viol.push("sorted_tokens() is not sorted by bytes".into());
+        }
+        got_sorted.sort_by(|a, b| a.1.cmp(&b.1).then(a.0.cmp(&b.0)));
+        if got_sorted != want_sorted {
+            viol.push(format!("sorted_tokens() = {:?}, expected {:?}", got_sorted.iter().take(6).collect::<Vec<_>>(), want_sorted.iter().take(6).collect::<Vec<_>>()));
+        }
+        // special tokens
+        for (i, w) in ws.iter().enumerate() {
+            let sp = !w.is_empty() && w[0] == 0xFF;
+            if trie.is_special_token(i as u32) != sp {
+                viol.push(format!("is_special_token({i}) = {}", !sp));
+            }
+            if sp {
+                if let Ok(name) = std::str::from_utf8(&w[1..]) {
+                    let g = trie.get_special_token(name);
+                    if g != canon(w) {
+                        viol.push(format!("get_special_token({name:?}) = {g:?}, lowest id with that name = {:?}", canon(w)));
+                    }
+                }
+            }
+        }
+        if trie.get_special_token("<|nope|>").is_some() {
+            viol.push("get_special_token finds a name that is not in the vocabulary".into());
+        }
+        // (get_special_tokens is a helper for an error message and skips one entry: not judged)
+        // eos / singleton sets
+        if vob_list(&trie.eos_token_set()) != vec![eos] {
+            viol.push("eos_token_set() is not {eos}".into());
+        }
+        let t = rng.below(n) as u32;
+        if vob_list(&trie.singleton_token_set(t)) != vec![t] {
+            viol.push(format!("singleton_token_set({t}) is not {{{t}}}"));
+        }
+        // lookups by bytes
+        let nonempty: Vec<&Vec<u8>> = ws.iter().filter(|w| !w.is_empty()).collect();
+        for _ in 0..8 {
+            let mut q: Vec<u8> = if rng.chance(3, 4) { (*rng.pick(&nonempty)).clone() } else { gen_word(rng, 4) };
+            match rng.below(4) {
+                0 => q.extend_from_slice(&gen_word(rng, 2)),
+                1 if q.len() > 1 => {
+                    q.pop();
+                }
+                2 => {
+                    let w: &Vec<u8> = *rng.pick(&nonempty);
+                    q.extend_from_slice(w);
+                }
+                _ => {}
+            }
+            if q.is_empty() {
+                continue;
+            }
+            // prefixes of q that are tokens
+            let pre: Vec<(u32, usize)> = (1..=q.len()).filter_map(|l| canon(&q[..l]).map(|i| (i, l))).collect();
+            let want_prefix = pre.last().copied().unwrap_or((0, 0));
+            let got_prefix = trie.prefix_token_id(&q);
+            if got_prefix != want_prefix {
+                viol.push(format!("prefix_token_id({q:?}) = {got_prefix:?}, longest token prefix = {want_prefix:?}"));
+            }
+            let want_all: Vec<u32> = pre.iter().map(|p| p.0).collect();
+            if trie.all_prefixes(&q) != want_all {
+                viol.push(format!("all_prefixes({q:?}) = {:?}, expected {want_all:?}", trie.all_prefixes(&q)));
+            }
+            if trie.token_id_at_bytes(&q) != canon(&q) {
+                viol.push(format!("token_id_at_bytes({q:?}) = {:?}, expected {:?}", trie.token_id_at_bytes(&q), canon(&q)));
+            }
+            let want_ext = ws.iter().any(|w| w.len() > q.len() && w.starts_with(&q));
+            if trie.has_extensions(&q) != want_ext {
+                viol.push(format!("has_extensions({q:?}) = {}, a longer token starts with it = {want_ext}", !want_ext));
+            }
+            let mut want_sub: Vec<u32> = vec![];
+            for i in 0..q.len() {
+                for l in 1..=(q.len() - i) {
+                    // the walk stops at the first byte that leaves the trie
+                    if !ws.iter().any(|w| w.starts_with(&q[i..i + l])) {
+                        break;
+                    }
+                    if let Some(id) = canon(&q[i..i + l]) {
+                        want_sub.push(id);
+                    }
+                }
+            }
+            if trie.all_subtokens(&q) != want_sub {
+                viol.push(format!("all_subtokens({q:?}) = {:?}, expected {want_sub:?}", trie.all_subtokens(&q)));
+            }
+        }
+        // decoding
+        let toks: Vec<u32> = (0..rng.range(1, 7)).map(|_| rng.below(n) as u32).collect();
+        let mut d_all = vec![];
+        let mut d_text = vec![];
+        let mut d_raw = vec![];
+        for &t in &toks {
+            let w = &ws[t as usize];
+            if w.is_empty() {
+                d_all.extend_from_slice(format!("<[{t}]>").as_bytes());
+                d_raw.push(0xFF);
+                d_raw.extend_from_slice(format!("[{t}]").as_bytes());
+            } else if w[0] == 0xFF {
+                d_all.extend_from_slice(&w[1..]);
+                d_raw.push(0xFF);
+                d_raw.extend_from_slice(format!("[{t}]").as_bytes());
+            } else {
+                d_all.extend_from_slice(w);
+                d_text.extend_from_slice(w);
+                d_raw.extend_from_slice(w);
+            }
+        }
+        if trie.decode(&toks) != d_all {
+            viol.push(format!("decode({toks:?}) differs from the concatenation with special tokens by name"));
+        }
+        if trie.decode_ext(&toks, false) != d_text {
+            viol.push(format!("decode_ext({toks:?}, false) differs from the concatenation of the text tokens"));
+        }
+        if trie.decode_raw(&toks) != d_raw {
+            viol.push(format!("decode_raw({toks:?}) differs from the concatenation with special tokens as marker-[id]"));
+        }
+        if trie.decode_str(&toks) != String::from_utf8_lossy(&d_all) {
+            viol.push(format!("decode_str({toks:?}) is not the lossy text of decode"));
+        }
+        // text tokens may themselves contain the bytes of a marker-[id] reference only if they contain 0xFF
+        if !toks.iter().any(|&t| { let w = &ws[t as usize]; !w.is_empty() && w[0] != 0xFF && w.contains(&0xFF) }) && trie.decode_raw_to_decode(&d_raw) != d_all {
+            viol.push(format!("decode_raw_to_decode(decode_raw({toks:?})) differs from decode"));
+        }
+    }));
+    if res.is_err() {
+        viol.push("a TokTrie lookup / decoding function panicked".into());
+    }
+    let descr = format!("vocab={:?}", ws.iter().map(|w| String::from_utf8_lossy(w).to_string()).collect::<Vec<_>>());
+    for v in viol {
+        out.violation(&v, descr.clone());
+    }
+    out.case(tagged("noop", vec![sym("trieapi"), int(n)]), tagged("noop", vec![sym("trieapi"), int(n)]), true);
+    out.count("trie_api_cases", 1);
+}
+
 pub fn run(rng: &mut Rng, out: &mut Out, tier: &str) {
     let (nt, ns) = if tier == "thorough" { (4000, 20000) } else { (400, 2000) };
     for i in 0..nt {
@@ -433,6 +597,10 @@ pub fn run(rng: &mut Rng, out: &mut Out, tier: &str) {
     for i in 0..ns {
         let mut r = rng.fork(0x1000_0000 + i as u64);
         svob_case(&mut r, out);
+    }
+    for i in 0..nt {
+        let mut r = rng.fork(0x1630_0000 + i as u64);
+        api_case(&mut r, out);
     }
     // tokenizer descriptions (byte-level / byte-fallback tokenizer.json, tiktoken rank tables)
     let nd = if tier == "thorough" { 600 } else { 60 };
